@@ -99,6 +99,28 @@ CHECKS["C26"] = dict(
     technique="Coq proof over fault model + exhaustive fault-enumeration correspondence on the real write path", design_ref="§30",
 )
 
+CHECKS["C24"] = dict(
+    category="proof",
+    text=("Coq theorems C24_aggregate_perm / C24_exit_perm prove that for ANY permutation of the per-file outcomes (any worker completion "
+          "order, any order of the given paths; distinct files) the aggregated result -- violation totals, skipped count, records sorted by "
+          "path, set of files to write, exit code -- is identical. The real runner is exercised through the CLI with processes in {1,2,4,8}, "
+          "per-file delays injected inside the spawned workers (sitecustomize) to permute completion order, and permuted path lists, for "
+          "lint, fix and format; results compared with the serial run and with the model's aggregate."),
+    note=("Trusted: Coq kernel, hand model Model/Runner.v (aggregation bookkeeping), multiprocessing delivering each result exactly once. "
+          "OS-level scheduling is exercised (delays), not modelled; `fatal` violations (none set by bundled code) would break order independence. No axioms."),
+    technique="Coq proof of permutation invariance + schedule-permuting differential runs of the real runner", design_ref="§28",
+)
+CHECKS["C34"] = dict(
+    category="proof",
+    text=("Coq theorems C34_byte_skip_spec, C34_byte_skipped_not_processed, C34_char_skipped_never_linted_or_written, C34_within_limits_processed, "
+          "C34_skip_fail_exit/_nofail_exit state the size gates and their accounting; C34_char_skip_counted_refuted exhibits the open finding F7 "
+          "(character-limit skips are not counted). Real runs at limit-1/limit/limit+1 with multi-byte content (bytes != chars), byte and "
+          "char limits, lint/fix, processes 1 and 2, large_file_skip_fail on/off; lex/parse calls traced inside workers, file bytes, "
+          "files_skipped and exit codes compared with the model."),
+    note=("Trusted: Coq kernel, hand model Model/Runner.v (byte_skip, char_skip, process_file), sitecustomize tracing in workers. No axioms."),
+    technique="Coq proof over gate model + boundary-value correspondence runs (serial and parallel)", design_ref="§38",
+)
+
 NOT_YET = "no check built yet in this round (planned: see DESIGN.md section for this property)"
 
 
